@@ -84,7 +84,8 @@ class ListProxy(list, ContainerValueMixin):
         if isinstance(index, slice):
             # any iterable (iterator, generator, another proxy), like list.__setitem__
             super().__setitem__(index, [self._validate(i) for i in item])
-        elif isinstance(index, int):
+        else:
+            # an int, an object with __index__, or something list.__setitem__ rejects itself
             super().__setitem__(index, self._validate(item))
 
     def _validate(self, value: Any) -> Any:
